@@ -153,6 +153,13 @@ def gen_query(rng, kind, coords, latlon, mag):
     return {"op": "q_" + kind, "loc": loc, "max_dist": radius, "max_elmt": rng.choice([None, None, 1, 3])}
 
 
+def with_clock(rng, d):
+    """Half of the store sessions run under a wall clock that steps and jumps (time is only logged)."""
+    if rng.random() < 0.5:
+        d["clock"] = rng.randrange(1 << 30)
+    return d
+
+
 def gen_world_b(rng, prop):
     latlon = rng.random() < 0.3
     mag = "deg" if latlon else rng.choice(["unit", "unit", "big"])
@@ -558,7 +565,7 @@ def gen_C11(rng, tier):
     if rng.random() < 0.3:
         pos = rng.randint(len(ops) // 2, len(ops))
         ops.insert(pos, {"op": "reopen"})
-    return {"kind": "B", "latlon": latlon, "mag": mag, "ops": ops}
+    return with_clock(rng, {"kind": "B", "latlon": latlon, "mag": mag, "ops": ops})
 
 
 def _reopen(sess, crash=False):
@@ -662,8 +669,10 @@ def check_midcrash(sess, i, op, mc, commit_points):
             vs.append(V("C18/sqlite/mid-operation-crash/not-a-commit-point/%s" % op["op"],
                         "statement %d (%s) of %s: differs from the last commit point in %s; got nodes=%d edges=%d nidx=%d eidx=%d" % (
                             mc.k, getattr(mc, "stmt", "?"), op["op"], what, len(got[0]), len(got[1]), len(got[2]), len(got[3])), i))
+        elif len(commit_points) > 2 and got in cands[1:-1] and got != cands[0] and got != cands[-1]:
+            sess.bump("probe_mid_crash_between_two_commits_of_one_operation")
         elif len(commit_points) > 1 and got == cands[-1] and got != cands[0]:
-            sess.bump("probe_mid_crash_after_inner_commit")
+            sess.bump("probe_mid_crash_after_last_commit_of_operation")
     shutil.rmtree(mc.dir, ignore_errors=True)
     return vs
 
@@ -699,6 +708,9 @@ def eval_C11(doc):
     st = dict(sess.stats)
     st["ops"] = len(doc["ops"])
     st["clock_reads"] = clock.reads
+    st["sim_seconds"] = clock.covered
+    if clock.jumps:
+        st["fired_clock"] = clock.jumps
     return {"violations": sess.vs, "sig": sig, "nontrivial": sess.mutations > 0, "stats": st,
             "shape": _store_shape(sess)}
 
@@ -737,7 +749,7 @@ def gen_C12(rng, tier):
             cfg["max_dist_init"] = 1e12      # unbounded initial radius (None would fall back to max_dist)
     d["cfg"] = cfg
     d["trace_seed"] = rng.randrange(1 << 30)
-    return d
+    return with_clock(rng, d)
 
 
 def _norm_nbrs(rows, drop_self=None):
@@ -876,6 +888,9 @@ def eval_C12(doc):
     st = dict(sess.stats)
     st["ops"] = len(doc["ops"])
     st["clock_reads"] = clock.reads
+    st["sim_seconds"] = clock.covered
+    if clock.jumps:
+        st["fired_clock"] = clock.jumps
     return {"violations": sess.vs, "sig": sig, "nontrivial": sess.mutations > 0, "stats": st,
             "shape": _store_shape(sess)}
 
@@ -894,14 +909,16 @@ def gen_C18(rng, tier):
         build = [o for o in ops if o["op"] in ("add_node", "add_nodes", "add_edge", "add_edges", "reindex_nodes",
                                                "reindex_edges", "commit", "connect_parallelroads")]
         for o in rng.sample(build, min(len(build), rng.randint(0, 3))):
-            o["midcrash"] = rng.randrange(0, 10)
+            # bulk inserts issue one statement per row, then COMMIT, then the re-index statements: a larger
+            # range reaches the crash points between the two commits of such an operation
+            o["midcrash"] = rng.randrange(0, 30 if o["op"] in ("add_edges", "add_nodes", "connect_parallelroads") else 10)
     battery = [gen_query(rng, rng.choice(["nodes", "edges"]), pts, latlon, mag) for _ in range(4)]
     d = {"kind": "B", "store": kind, "latlon": latlon, "mag": mag, "ops": ops, "battery": battery}
     if rng.random() < 0.3:
         d["crs"] = [rng.choice(["EPSG:4326", "EPSG:4258"]), rng.choice(["EPSG:3395", "EPSG:31370", "EPSG:3857"])]
     if kind == "pickle" and rng.random() < 0.4 and len(labels) >= 4:
         d["linked"] = [[[labels[0], labels[1]], [[labels[2], labels[3]]]]]
-    return d
+    return with_clock(rng, d)
 
 
 def battery(m, doc, labels, edges, geomcheck):
@@ -1076,5 +1093,8 @@ def eval_C18(doc):
     sig = "|".join(["sqlite", str(latlon), doc["mag"], "".join(o["op"][0] + o["op"][-1] for o in doc["ops"])[:40]])
     stats["ops"] = len(doc["ops"])
     stats["clock_reads"] = clock.reads
+    stats["sim_seconds"] = clock.covered
+    if clock.jumps:
+        stats["fired_clock"] = clock.jumps
     return {"violations": vs, "sig": sig, "nontrivial": sess.mutations > 0, "stats": stats,
             "shape": _store_shape(sess)}
